@@ -122,6 +122,7 @@ impl ShardResult {
             *self.excluded_known.entry(k).or_default() += v;
         }
         self.unconfirmed += other.unconfirmed;
+        self.exhaustive &= other.exhaustive;
         self.failures.extend(other.failures);
         self.notes.extend(other.notes);
         for (k, v) in other.extra {
@@ -611,7 +612,7 @@ pub fn run_master(prop: &dyn Prop, tier: Tier, seed: u64) -> i32 {
         children.push((shard, child, out, journal));
     }
     let watchdog = std::time::Duration::from_secs(prop.watchdog_s(tier));
-    let mut total = ShardResult::default();
+    let mut total = ShardResult { exhaustive: true, ..ShardResult::default() };
     let mut inconclusive: Vec<String> = vec![];
     for (shard, mut child, out, journal) in children {
         // wait with watchdog
